@@ -4,6 +4,7 @@ import (
 	"bytes"
 	"context"
 	"fmt"
+	"go.brendoncarroll.net/p2p/p/mbapp"
 	"os"
 	"os/exec"
 	"path/filepath"
@@ -71,6 +72,24 @@ func runC14(c *ctxT) {
 			c.emit(sx.L(sx.S("race"), sx.S(fam), sx.N(seed)), sx.L(sx.S(status), sx.I(n)))
 			c.count("race/" + fam + "/" + status)
 		}
+	}
+	// an Ask that returned an error must not have its response buffer written afterwards (mbapp: a reply whose
+	// lookup had succeeded before the context ended is completed after Ask returned)
+	for i := 0; i < c.scale(20, 200); i++ {
+		rr := c.rng.Fork()
+		buf := rr.Bytes(1 + rr.Intn(40))
+		reply := rr.Bytes(1 + rr.Intn(60))
+		err, written := mbapp.VerifLateReply(buf, reply)
+		st := "error"
+		if err == nil {
+			st = "nil"
+		}
+		c.emit(sx.L(sx.S("late"), sx.S("mbapp-ask"), sx.I(i)), sx.L(sx.S(st), sx.I(boolInt(written))))
+		c.count("own/late-reply")
+	}
+	// buffer ownership in swarmutil.Queue: callbacks that Deliver into the queue they are being served from
+	for i := 0; i < c.scale(150, 3000); i++ {
+		queueBuf(c, c.rng.Fork())
 	}
 	// buffer ownership in the bounded queue of vswarm / memswarm
 	for i := 0; i < c.scale(10, 100); i++ {
